@@ -953,6 +953,135 @@ def r_memoscope(E):
     return res
 
 
+# ---------------------------------------------------------------------------------------------- R-NONEFILTER
+_NF_POSITIVE = '''
+class Node:
+    @property
+    def owners(self):
+        return list(set(self.containers))
+def first_owned(chain):
+    return next((n.owners for n in chain if n.owners is not None), [])
+'''
+_NF_NEGATIVE = '''
+class Node:
+    @property
+    def owners(self):
+        return list(set(self.containers))
+    @property
+    def parent(self):
+        if self.containers:
+            return self.containers[0]
+class Leaf:
+    @property
+    def owners(self):
+        return None
+def first_owned(chain):
+    return next((n.owners for n in chain if n.owners), [])
+def parents(chain):
+    return [n.parent for n in chain if n.parent is not None]
+def checked(chain):
+    return [n for n in chain if n.owners is not None and n.owners]
+'''
+
+
+def _never_none(e):
+    if isinstance(e, (ast.List, ast.ListComp, ast.Dict, ast.DictComp, ast.Set, ast.SetComp, ast.Tuple, ast.JoinedStr)):
+        return True
+    if isinstance(e, ast.Constant):
+        return e.value is not None
+    if isinstance(e, ast.Call) and isinstance(e.func, ast.Name) and e.func.id in ("list", "sorted", "set", "dict", "tuple",
+                                                                                 "sum", "len", "str"):
+        return True
+    if isinstance(e, ast.BinOp) and isinstance(e.op, ast.Add):
+        return _never_none(e.left) or _never_none(e.right)
+    return False
+
+
+def constant_none_filters(tree, extra_props=None):
+    """[(function, test, property name)]: the whole condition of an `if` / a comprehension filter is `<x>.<p> is [not] None`
+    where every property called p in the program returns a freshly built collection on every path (never None): the
+    condition is constant, so the filter selects everything (or nothing) — the emptiness test that was meant is gone"""
+    props = {}
+    for cls in [c for c in ast.walk(tree) if isinstance(c, ast.ClassDef)]:
+        for f in cls.body:
+            if isinstance(f, ast.FunctionDef) and any(isinstance(d, ast.Name) and d.id == "property" for d in f.decorator_list):
+                if any(isinstance(d, ast.Name) and d.id == "abstractmethod" for d in f.decorator_list):
+                    continue      # declared only: the subclasses' definitions are the ones that run
+                props.setdefault(f.name, []).append(f)
+    for k, v in (extra_props or {}).items():
+        props.setdefault(k, []).extend(x for x in v if not any(x is y for y in props.get(k, [])))
+
+    def decided(never):
+        def nn(e):
+            # (a property that hands on another never-None property of some object is never None either)
+            return _never_none(e) or (isinstance(e, ast.Attribute) and e.attr in never)
+        out_ = set()
+        for k, fs in props.items():
+            good = True
+            for f in fs:
+                rets = [r for r in ast.walk(f) if isinstance(r, ast.Return)]
+                falls_off = not (f.body and isinstance(f.body[-1], (ast.Return, ast.Raise)))
+                good = good and bool(rets) and not falls_off and all(r.value is not None and nn(r.value) for r in rets)
+            if good and fs:
+                out_.add(k)
+        return out_
+    # greatest fixed point: properties that hand one another on (`Service.systems` is its server's `systems`) stand together
+    never = set(props)
+    for _ in range(8):
+        nxt = decided(never)
+        if nxt == never:
+            break
+        never = nxt
+    out = []
+    if not never:
+        return out, props
+    for fn in [f for f in ast.walk(tree) if isinstance(f, (ast.FunctionDef, ast.AsyncFunctionDef))]:
+        tests = [n.test for n in ast.walk(fn) if isinstance(n, (ast.If, ast.IfExp))] + [
+            t for c in ast.walk(fn) if isinstance(c, (ast.ListComp, ast.GeneratorExp, ast.SetComp, ast.DictComp))
+            for g in c.generators for t in g.ifs]
+        for t in tests:
+            if isinstance(t, ast.Compare) and len(t.ops) == 1 and isinstance(t.ops[0], (ast.Is, ast.IsNot)) \
+                    and isinstance(t.comparators[0], ast.Constant) and t.comparators[0].value is None \
+                    and isinstance(t.left, ast.Attribute) and t.left.attr in never:
+                out.append((fn, t, t.left.attr))
+    return out, props
+
+
+@rule("R-NONEFILTER")
+def r_nonefilter(E):
+    pm = E.pm
+    res = RuleResult("R-NONEFILTER", "a selection is never decided by `<x>.<p> is [not] None` alone when p is a property that "
+                                     "returns a freshly built list on every path in every class that has it: the test is "
+                                     "constant, every element passes (or none), and what was meant — is the list empty? — is "
+                                     "not tested (the first object of the chain is taken for the one linked to a system)")
+    # the properties of the whole package first (a name counts when *every* definition is never-None)
+    allprops = {}
+    for mod, (rel, tree, src) in sorted(pm.modules.items()):
+        _o, pr = constant_none_filters(tree)
+        for k, v in pr.items():
+            allprops.setdefault(k, []).extend(v)
+    for mod, (rel, tree, src) in sorted(pm.modules.items()):
+        res.instances += len([n for n in ast.walk(tree) if isinstance(n, ast.Compare) and len(n.ops) == 1
+                              and isinstance(n.ops[0], (ast.Is, ast.IsNot))])
+        # (judged with the package-wide table: a property defined never-None here and Optional elsewhere does not count)
+        found, _ = constant_none_filters(tree, {k: v for k, v in allprops.items()})
+        for fn, t, p_ in found:
+            res.findings.append(Finding(
+                "R-NONEFILTER", f"{rel}:{fn.name} :: {norm(t)}",
+                f"{fn.name} selects on `{norm(t)}`, but `{p_}` is a property that returns a newly built list in every class "
+                f"that defines it — never None: the condition is always {'true' if isinstance(t.ops[0], ast.IsNot) else 'false'}, "
+                f"so an object whose `{p_}` is empty is selected like any other", rel, t.lineno, fn.name,
+                {"clauses": _area(rel)}))
+    pos, _ = constant_none_filters(set_parents(ast.parse(_NF_POSITIVE)))
+    neg, _ = constant_none_filters(set_parents(ast.parse(_NF_NEGATIVE)))
+    if len(pos) != 1 or neg:
+        raise AnalysisError(f"R-NONEFILTER: embedded examples: {len(pos)} of 1 positive recognised, {len(neg)} false reports")
+    res.instances += 1
+    res.samples = [{"embedded_positive_example_recognised": True, "embedded_twins_silent": True}]
+    res.floor = 20
+    return res
+
+
 # ---------------------------------------------------------------------------------------------- R-ORDEFAULT
 @rule("R-ORDEFAULT")
 def r_ordefault(E):
